@@ -1445,9 +1445,7 @@ _add("C05", "partial", [
     "hex4 and a naive scan (no theorem equates the machine's hex4 with Spec.Str.hex4Val; both are run against the crate)",
 ])
 _add("C06", "partial", [
-    "c06_typed: for the 128-bit targets Model.TypedInt.deIntText is written as the specification minus the -0 line, so that branch of the "
-    "theorem is true by construction; the real do_deserialize_i128 / u128 is Model.Typed.deInt128, covered by c06_via_value (textInt) and "
-    "c10_typed_prefix. IntTy has ten widths (isize / usize are not separate: 64-bit target)",
+    "IntTy has ten widths (isize / usize are not separate: 64-bit target)",
 ])
 # C07: both items of the honesty pass are closed (wip-range): c07_bhcomp_calls_in_range / c07_correct_limbs compose the limb-level
 # closure with c07_correct; c07_int_literals_nearest / c07_typed_nearest_all / c07_nearest_even_all / c07_exponent_overflow_spec
@@ -1720,3 +1718,14 @@ PROPS["C13"]["level_text"] += (
     "c13_kind_only_from_reader (a reported kind is the reader's); c13_typed_kind_preserved, c13_item_kind (typed targets, stream "
     "items: by attachment). Thin by design - the content is the four extracted shapes; the driver's rfault model now prints IO:<kind> "
     "from io_error_kind() of the model's outcome instead of echoing the case line.")
+
+# C06 128-bit typed path (branch wip-smalls)
+PROPS["C06"]["lean_targets"] = PROPS["C06"]["lean_targets"][:-1] + ["SJ.Props.C06Typed128"] + PROPS["C06"]["lean_targets"][-1:]
+PROPS["C06"]["level_text"] += (
+    " The 128-bit branch of c06_typed is a statement about Model.TypedInt.deIntText, which is written as the specification there; "
+    "Props/C06Typed128.lean ties it to the transcription: c06_typed_text - for every literal of the grammar, every width, source and "
+    "configuration, from_str::<w> as transcribed (Model.Typed.deTypedTop -> deInt -> deNumber / deInt128 = do_deserialize_i128 / u128: "
+    "scan_integer128 + str::parse, then end(); projected by Model.ViaValue.textInt) = deIntText on the literal's parts = specInt; "
+    "c06_typed_128 - the 128-bit case spelled out (integer literal, no minus sign for u128, -0 accepted as 0, exact range check; "
+    "deInt = deInt128 there); specInt_eq_targetInt - the specification of Model.TypedInt and the statement-level verdict "
+    "Spec.NumberAcc.targetInt of c06_via_value are the same function of the literal.")
